@@ -156,11 +156,15 @@ REQUEST_COROS = {"_request_pause_coro", "_abort_coro", "_stop_coro", "_halt_coro
 class Scenario:
     def __init__(self, I, plan_msgs, env=(), post_pause=("resume", "abort", "stop", "halt"), max_requests=None, handles=True,
                  can_raise=True, engine_kw=None, max_inflight=1, max_depth=2, second_call=None, max_runs=2, suspend_plans=False, re_attrs=None, pretripped=None,
-                 paused_env=()):
+                 paused_env=(), independent_conditions=False, exact_empty_replay=False):
         self.max_depth = max_depth
         # requests another thread makes while the engine sits *paused* and the main thread is at the prompt (the loop thread is alive
         # and processes them at once): e.g. a suspender tripping during a pause.  At most one per visit of the paused state (opt-in)
         self.paused_env = tuple(paused_env.split(",")) if isinstance(paused_env, str) else tuple(paused_env)
+        # every suspension request brings its own condition, released by the environment independently of the others (two suspenders
+        # tripped at the same time); without it a request made while a condition is unreleased shares that condition
+        self.independent_conditions = independent_conditions
+        self.releases = []              # all conditions created, in order of request
         self.pretripped = pretripped
         self.re_attrs = dict(re_attrs or {})
         self.suspend_plans = suspend_plans
@@ -172,6 +176,9 @@ class Scenario:
         self.I, self.w = I, I.w
         w = I.w
         self.eng = eng = Engine(I, **(engine_kw or {}))
+        # opt-in refinement of the replay abstraction: the replay of an EMPTY cache yields no message (otherwise the empty rewind of an inner
+        # suspension is taken for plan messages running under the outer one)
+        eng.exact_empty_replay = bool(independent_conditions or exact_empty_replay)
         self.re = eng.re
         for k_, v_ in self.re_attrs.items():
             I.setattr(self.re, k_, v_)         # public configuration attributes (e.g. record_interruptions)
@@ -271,7 +278,11 @@ class Scenario:
             if not t.done() and not getattr(t, "fired", False):
                 out.append(("timer", lambda t=t: self.fire(t)))
                 break
-        if self.release is not None and not self.release.value and not getattr(self.release, "fired", False):
+        if self.independent_conditions:
+            for k_, r in enumerate(self.releases):
+                if not r.value and not getattr(r, "fired", False):
+                    out.append((f"release#{k_}", lambda r=r: self.do_release(r)))
+        elif self.release is not None and not self.release.value and not getattr(self.release, "fired", False):
             out.append(("release", self.do_release))
         return out
 
@@ -279,10 +290,10 @@ class Scenario:
         t.fired = True
         self.loop.call_soon(lambda: None if t.done() else t.set_result(None), label="timer")
 
-    def do_release(self):
-        r = self.release
+    def do_release(self, r=None):
+        r = self.release if r is None else r
         r.fired = True
-        self.eng.event("release")
+        self.eng.event("release", r)
         self.loop.call_soon(r.set, label="release")
 
     def request(self, kind, act):
@@ -296,11 +307,15 @@ class Scenario:
 
     def do_suspend(self):
         I = self.I
-        fresh = self.release is None or self.release.value
+        fresh = self.release is None or self.release.value or self.independent_conditions
         if fresh:
-            self.release = aio.AEvent(self.loop, "release")
+            self.release = aio.AEvent(self.loop, f"release{len(self.releases)}" if self.independent_conditions else "release")
+            self.releases.append(self.release)
         self.eng.event("suspend-requested", fresh)
+        # ghost: what was REQUESTED (condition, pre-plan, post-plan), in order of request - the roles as the environment gave them
+        self.suspensions = getattr(self, "suspensions", [])
         if not self.suspend_plans:
+            self.suspensions.append({"cond": self.release, "pre": None, "post": None, "started": False})
             call_method(I, self.re, "request_suspend", I.getattr(self.release.facade, "wait"))
             return
         # the suspender's pre / post plans: arbitrary short plans of harmless messages
@@ -310,6 +325,7 @@ class Scenario:
         pre.canon_name, post.canon_name = "pre", "post"
         self.pre_plans.append(pre)
         self.post_plans.append(post)
+        self.suspensions.append({"cond": self.release, "pre": pre, "post": post, "started": False})
         call_method(I, self.re, "request_suspend", I.getattr(self.release.facade, "wait"), pre_plan=pre, post_plan=post, justification="beam dump")
 
     def complete(self, f, ok):
